@@ -17,7 +17,9 @@ META = {
             "(view >= limit - limit/4 > 0 whenever everything delivered was consumed); negative control: updates held back until "
             "a whole window is pending. Every transition of the bounded state graphs, seeded random long histories and histories "
             "with windows next to 2^31-1 are executed on real inFlow / trInFlow values; TLC validates the recorded calls with a "
-            "monitor that rebuilds the peer's view from the returned window updates only (numbers logged as two limbs of 10^6, exact limb arithmetic in the monitor).",
+            "monitor that rebuilds the peer's view from the returned window updates only; the same monitor is fed from the wire of "
+            "a real http2Server and a real http2Client talking to a scripted raw HTTP/2 peer inside testing/synctest (DATA incl. "
+            "padded and padding-only frames vs WINDOW_UPDATE / SETTINGS / RST_STREAM received (numbers logged as two limbs of 10^6, exact limb arithmetic in the monitor).",
     "note": "The literal clause 'restored to at least the configured window' does not hold by design (updates are batched until "
             "limit/4 is pending) and is reported as a known finding; so is the cap when a BDP limit raise arrives while the extra "
             "window of a ~2 GiB read request is outstanding. The BDP estimator's arithmetic is not modelled (only its effect "
@@ -114,15 +116,25 @@ def run(ctx):
     ctx.count({"random_histories": n, "seed": ctx.seed}, n=n)
     t_big = os.path.join(ctx.run, "trace-big.ndjson")
     ctx.driver(binary, "TestVerifC04Big", {"VERIF_OUT": t_big})
+    # ---- raw-peer level: real http2Server / http2Client against a scripted HTTP/2 peer (wire trace)
+    t_wire = os.path.join(ctx.run, "trace-wire.ndjson")
+    n = ctx.pick(24, 240)
+    out = ctx.driver(binary, "TestVerifC04Wire", {"VERIF_OUT": t_wire, "VERIF_N": n})
+    m = re.search(r"VERIF_SUMMARY (\{.*\})", out)
+    wsum = json.loads(m.group(1)) if m else {}
+    ctx.cov["wire"] = wsum
+    if not wsum.get("parked"):
+        raise Inconclusive("raw-peer driver: no history had NewStream parked across a limit raise: %s" % wsum)
+    ctx.count({"wire_histories": n, "seed": ctx.seed}, n=n)
     t_all = os.path.join(ctx.run, "trace-all.ndjson")
     with open(t_all, "w") as out:
-        for p in (t_replay, t_random, t_big):
+        for p in (t_replay, t_random, t_big, t_wire):
             out.write(open(p).read())
 
     # ---- strict clauses: accept / reject-only-excess / cap / no-wedge (stream and connection)
     res = ctx.validate("InFlowTrace", "InFlowTrace.cfg", t_all)
     if not res["accepted"]:
-        ctx.violation(*report(ctx, res, t_all, "replay of TLC behaviours + random histories (seed %d) + near-cap histories" % ctx.seed))
+        ctx.violation(*report(ctx, res, t_all, "replay of TLC behaviours + random histories (seed %d) + near-cap histories + raw-peer wire histories" % ctx.seed))
 
     # ---- the literal clause, reported separately.  It can only fail alone (without I_NoWedge, which is marked
     #      first) when the shortfall is below limit/4, i.e. exactly the batched-updates class.
